@@ -153,6 +153,9 @@ def _run_naive(case, ctx):
         vals[-1] = np.nan
     elif case["nan"] == "all_window":
         vals[max(0, n - w_eff):] = np.nan
+    if case["nan"] == "none" and case["dseed"] % 5 == 0:
+        vals = np.round(vals).astype(np.int64)       # integer-typed series: means / drifts are still real-valued
+        ctx.tag("integer-series")
     y = pd.Series(vals, index=_index(n, case["off"], case["idx"]))
     f = NaiveForecaster(strategy=strategy, sp=sp, window_length=wl)
     valid = w_eff <= n and not (strategy == "drift" and wl == 1)
@@ -245,7 +248,12 @@ def _run_poly(case, ctx):
     x = np.arange(n, dtype=float)
     coef = rng.normal(0, 1, size=d + 1) / np.array([max(1.0, n ** k) for k in range(d + 1)]) * 10
     vals = sum(c * x ** k for k, c in enumerate(coef)) + rng.normal(0, 0.5, size=n)
-    y = pd.Series(vals, index=_index(n, off, case["idx"]))
+    if case["dseed"] % 5 == 0:
+        vals = np.round(vals * 10)
+        y = pd.Series(vals.astype(np.int64), index=_index(n, off, case["idx"]))
+        ctx.tag("integer-series")
+    else:
+        y = pd.Series(vals, index=_index(n, off, case["idx"]))
     fk = case["fhkind"]
     rel = {"oos": [1, 2, 3, 7], "ins": [-(n - 1), -1, 0] if n > 2 else [0], "both": [-2, 0, 1, 4], "gapped": [2, 5, 11]}[fk]
     rel = sorted(set(r for r in rel if r > -n))
